@@ -17,24 +17,52 @@ LABELS = {"C09", "PANIC"}
 
 DS = re.compile(r" \| ds pre=L:(-?\d+);cells:(\S*) rep=(\S+) ev=(\S+) sent=(-?\d+) hist=(\S+) pend=(\S*)$")
 
-def gen_scenario(rng, honest):
-    w = rng.choice([2, 4, 8]); sparse = rng.choice([0, 0, 1]); interval = rng.choice([1, 2, 3, 5, 40]); neps = rng.choice([1, 1, 2])
+def gen_scenario(rng, honest, bursty=False):
+    """bursty: the remote inputs stall for a few calls and then arrive all at once, so that the last confirmed
+    frame jumps past several frames whose local checksum is only recorded by later calls; the peer's reports
+    for exactly those frames arrive in between"""
+    w = rng.choice([4, 8] if bursty else [2, 4, 8]); sparse = 0 if bursty else rng.choice([0, 0, 1])
+    interval = rng.choice([1, 1, 2] if bursty else [1, 2, 3, 5, 40]); neps = rng.choice([1, 1, 2])
     kinds = "L," + ",".join("R%d" % e for e in range(neps))
     lines = ["new players=%d window=%d sparse=%d pred=repeat delay=0 kinds=%s spectators=0 desync=%d" % (1 + neps, w, sparse, kinds, interval), "sync"]
     nextf = [0] * neps
     val = [rng.randrange(6) for _ in range(neps)]
     cur = 0
+    stall = 0
+    after_burst = 0
     for step in range(rng.randrange(40, 140)):
+        burst = False
+        if bursty and stall == 0 and cur > 3 and rng.random() < 0.25:
+            stall = rng.randrange(2, w)
+        if stall > 0:
+            stall -= 1
+            burst = stall == 0
         for e in range(neps):
             # remote inputs arrive in order, sometimes in bursts, sometimes lagging (stalls, rollbacks)
-            k = rng.choice([0, 1, 1, 1, 2, 3]) if nextf[e] <= cur + 1 else rng.choice([0, 0, 1])
+            if stall > 0:
+                k = 0
+            elif burst:
+                k = max(0, cur + 1 - nextf[e])
+            else:
+                k = rng.choice([0, 1, 1, 1, 2, 3]) if nextf[e] <= cur + 1 else rng.choice([0, 0, 1])
             for _ in range(k):
-                if rng.random() < 0.4:
+                if rng.random() < (0.05 if bursty else 0.4):
                     val[e] = rng.randrange(6)
                 lines.append("rin %d %d %d" % (e, nextf[e], val[e])); nextf[e] += 1
-        if rng.random() < 0.5:
+        conf = min(nextf) - 1
+        if after_burst > 0 and conf >= 2:
+            # the call(s) after the jump: reports for the frames the jump has confirmed.  An honest peer names
+            # them relative to what the session itself has confirmed (those saved states are final)
+            after_burst -= 1
+            for _ in range(rng.choice([1, 2, 3])):
+                e = rng.randrange(neps)
+                if honest:
+                    lines.append("report %d conf%d match" % (e, rng.randrange(0, w + 1)))
+                else:
+                    f = rng.randrange(max(0, conf - w), conf + 1)
+                    lines.append("report %d %d %s" % (e, f, rng.choice(["match", str(f * 1000 + 7), str(rng.randrange(1, 50))])))
+        elif rng.random() < 0.5:
             e = rng.randrange(neps)
-            conf = min(nextf) - 1
             if honest:
                 # an honest peer reports the checksum of a frame that is confirmed (on the interval grid or not):
                 # `conf<k>` = k frames below the session's own last confirmed frame, `match` = the checksum saved
@@ -44,7 +72,10 @@ def gen_scenario(rng, honest):
                 lines.append("report %d %d %s" % (e, f, rng.choice(["match", "match", str(rng.randrange(1, 50)), str(f * 1000 + 1)])))
         lines.append("local 0 %d" % rng.randrange(4))
         lines.append("advance")
-        cur += 1
+        if burst:
+            after_burst = 2
+        if stall == 0 or cur - (min(nextf) - 1) < w:
+            cur += 1
     return {"lines": lines, "honest": honest, "interval": interval, "neps": neps}
 
 def model_script(scen, out):
@@ -64,22 +95,20 @@ def model_script(scen, out):
     return ms, idx
 
 def monitor(scen, out):
-    """implementation-side: honest reports never raise an event; a wrong report for a frame in the local
-    history is flagged as soon as a call has confirmed that frame"""
+    """implementation-side: honest reports never raise an event; a wrong report for a frame is flagged once the
+    local history holds that frame and the session has confirmed it - whether the report came before or after
+    the local checksum was recorded (one further call is allowed, the comparison may run before the recording)"""
     hits = []
-    hist, lastL = {}, -1
-    owed = {}     # (ep, frame) -> (local, remote) that must be reported once L > frame
+    hist = {}
+    pend = {}     # (ep, frame) -> reported checksum, not yet settled as far as the monitor can tell
+    late = {}     # (ep, frame) -> number of calls in which the report was comparable and no event came
     for op, r in zip(scen["lines"], out):
         t = op.split()
         if r.startswith("panic") or r == "dead":
             hits.append(("panic", "`%s` answered `%s`" % (op, r[:80]))); break
         if t[0] == "report" and r.startswith("ok f="):
             f, cs = int(r.split()[1][2:]), int(r.split()[2][3:])
-            if f in hist:
-                if hist[f] != cs:
-                    owed[(int(t[1]), f)] = (hist[f], cs)
-                else:
-                    owed.pop((int(t[1]), f), None)
+            pend[(int(t[1]), f)] = cs; late.pop((int(t[1]), f), None)
         if t[0] == "advance":
             m = DS.search(r)
             if not m:
@@ -89,22 +118,28 @@ def monitor(scen, out):
             if scen["honest"] and evs:
                 hits.append(("false-alarm", "DesyncDetected %s although every report carried the checksum saved for a confirmed frame (%s)" % (evs, scen["lines"][0])))
                 break
-            for (ep, f), (lc, rc) in list(owed.items()):
-                if L > f:
-                    if (ep, f, lc, rc) not in evs:
-                        hits.append(("missed-desync", "endpoint %d reported %d for frame %d, the local history holds %d, the call with last confirmed frame %d raised %s (%s)" % (ep, rc, f, lc, L, evs, scen["lines"][0])))
-                    del owed[(ep, f)]
+            hist = {} if m.group(6) == "-" else {int(x.split(":")[0]): int(x.split(":")[1]) for x in m.group(6).split(",")}
+            for (ep, f), cs in list(pend.items()):
+                if f not in hist:
+                    late.pop((ep, f), None)
+                    continue
+                if L <= f:
+                    continue
+                if hist[f] == cs or (ep, f, hist[f], cs) in evs:
+                    del pend[(ep, f)]; late.pop((ep, f), None)
+                    continue
+                late[(ep, f)] = late.get((ep, f), 0) + 1
+                if late[(ep, f)] >= 2:
+                    hits.append(("missed-desync", "endpoint %d reported %d for frame %d, the local history holds %d and the session has confirmed frame %d, yet two calls in a row raised no DesyncDetected for it (last: %s) (%s)" % (ep, cs, f, hist[f], L, evs, scen["lines"][0])))
+                    break
             if hits:
                 break
-            hist = {} if m.group(6) == "-" else {int(x.split(":")[0]): int(x.split(":")[1]) for x in m.group(6).split(",")}
-            # entries dropped from the history can no longer be compared
-            owed = {k: v for k, v in owed.items() if k[1] in hist}
     return hits
 
 def run_desync_level(ctx):
     rng = ctx.rng
     n = 400 if ctx.thorough else 60
-    scens = [gen_scenario(rng, honest=(i % 2 == 0)) for i in range(n)]
+    scens = [gen_scenario(rng, honest=(i % 2 == 0), bursty=(i % 4 >= 2)) for i in range(n)]
     script = [l for s in scens for l in s["lines"]]
     impl = ctx.run_impl("desync", script, "debug")
     st = ctx.cov["correspondence"].setdefault("desync/debug", {"ops": 0, "disagreements": 0, "skipped_for_model": 0})
